@@ -194,6 +194,132 @@ example : FlushSpec (RB.run (RB.new 2 8 7 7)
       | exact (by decide : (1 : Nat) ≤ 2 ∧ 2 ≤ 3)
       | exact (by unfold CharOK; decide +kernel : CharOK 0x51))
 
+/-- A terminal with blank cells, cursor at the origin. -/
+def blankTerm : GridTerm := { cells := fun _ _ => {}, line := 0, col := 0, cols := 80 }
+
+/-! ## Every buffer and terminal size: a screen of `L` lines and `t.cols` columns
+
+  `FlushSpec` speaks of a terminal at least as wide as the buffer, on a plane unbounded downwards.  The statement below
+  drops both: the terminal is a screen of `L` lines (`GridTerm.runL`: a cursor movement below the last line is clamped,
+  the deferred wrap on the last line scrolls) and `t.cols` columns, of *any* size, and the buffer may be larger than the
+  screen in either direction as long as what it holds lies within the screen — said with the specification itself: no
+  cell outside the screen is owed anything. -/
+
+/-- The flush of `rb` on a screen of `L` lines and `t.cols` columns that contains the content of the buffer: it
+    completes; it never has a cursor movement clamped and never wraps or scrolls (the screen does exactly what the
+    unbounded plane does); and every cell satisfies `cellOK` against the content of the buffer. -/
+def FlushSpecScreen (rb : RB) : Prop :=
+  ∀ (t : GridTerm) (L : Int), (∀ l c, L ≤ l ∨ t.cols ≤ c → want rb l c = .keep) →
+    (flushToTerm rb).out = .ok ∧
+    t.runL L (flushToTerm rb).reqs = t.run (flushToTerm rb).reqs ∧
+    ∀ l c, cellOK (want rb l c) (t.cells l c) ((t.runL L (flushToTerm rb).reqs).cells l c) = true
+
+/-- **flush_spec_screen**: `FlushSpecScreen` for every well-formed buffer (same hypotheses as `flush_spec`). -/
+theorem flush_spec_screen (rb : RB) (hwf : FlushWF rb) : FlushSpecScreen rb := by
+  intro t L hout
+  obtain ⟨h1, h2, h3⟩ := flush_spec_of_text_within (W := t.cols) (L := L) hwf (within_of_want hout)
+    (fun _ _ h1 h2 h3 hr hs => text_run ⟨h1, h2⟩ h3 hr hs) t (Int.le_refl _)
+  have he := GridTerm.runL_eq_of_calm L _ t h3
+  exact ⟨h1, he, by rw [he]; exact h2⟩
+
+/-- A buffer that fits on the screen has its content within the screen. -/
+theorem want_keep_outside (rb : RB) (W L : Int) (hL : rb.lines ≤ L) (hW : rb.cols ≤ W) :
+    ∀ l c, L ≤ l ∨ W ≤ c → want rb l c = .keep := by
+  intro l c h
+  unfold want
+  rw [if_pos (by unfold RB.inGrid; omega)]
+
+/-- `FlushSpec` (the plane, a terminal at least as wide as the buffer) is the special case `L = rb.lines`. -/
+theorem flushSpec_of_screen (rb : RB) (h : FlushSpecScreen rb) : FlushSpec rb := by
+  intro t hcw
+  obtain ⟨h1, h2, h3⟩ := h t rb.lines (want_keep_outside rb t.cols rb.lines (Int.le_refl _) hcw)
+  exact ⟨h1, by rw [h2] at h3; exact h3⟩
+
+/-- **flush_spec_screen_program**: the same for the buffer any drawing program leaves behind (`flush_spec_program`). -/
+theorem flush_spec_screen_program (lines cols g1 g2 : Int) (hl : 0 ≤ lines) (hc : 0 < cols) (prog : List Op)
+    (hok : ∀ o ∈ prog, OpOK o) : FlushSpecScreen (RB.run (RB.new lines cols g1 g2) prog) :=
+  flush_spec_screen _ (flushWF_of_program lines cols g1 g2 hl hc prog hok)
+
+/-- A 3×6 buffer holding `ab` at (0,0) and `c` at (1,1): its content lies within 2 lines and 2 columns. -/
+def smallContentRB : RB := textAt (textAt (RB.new 3 6 0 0) 0 0 [0x61, 0x62]) 1 1 [0x63]
+
+/-- Non-vacuity: the buffer is larger than the 2×2 screen in both directions, its content is not, and the hypothesis of
+    `FlushSpecScreen` holds of it. -/
+example : ∀ l c, (2 : Int) ≤ l ∨ ({ cells := fun _ _ => {}, line := 0, col := 0, cols := 2 } : GridTerm).cols ≤ c →
+    want smallContentRB l c = .keep := by
+  intro l c h
+  have hc : (2 : Int) ≤ l ∨ 2 ≤ c := h
+  unfold want
+  by_cases hg : smallContentRB.inGrid l c
+  · rw [if_neg (fun hn => hn hg)]
+    have hsz : smallContentRB.lines = 3 ∧ smallContentRB.cols = 6 := by decide +kernel
+    unfold RB.inGrid at hg
+    rw [hsz.1, hsz.2] at hg
+    have hl : l = 0 ∨ l = 1 ∨ l = 2 := by omega
+    have hcc : c = 0 ∨ c = 1 ∨ c = 2 ∨ c = 3 ∨ c = 4 ∨ c = 5 := by omega
+    rcases hl with rfl | rfl | rfl <;> rcases hcc with rfl | rfl | rfl | rfl | rfl | rfl <;>
+      first
+        | (exfalso; omega)
+        | decide +kernel
+  · rw [if_pos hg]
+
+example : FlushSpecScreen smallContentRB := flush_spec_screen _ (flushWF_of_flushWFb (by decide +kernel))
+
+/-- The statement without the hypothesis "the content lies within the screen": whatever the sizes, the cells of the
+    screen show what the buffer holds there. -/
+def C04_anysize : Prop :=
+  ∀ rb : RB, FlushWF rb → ∀ (t : GridTerm) (L : Int),
+    ∀ l c, 0 ≤ l → l < L → 0 ≤ c → c < t.cols →
+      cellOK (want rb l c) (t.cells l c) ((t.runL L (flushToTerm rb).reqs).cells l c) = true
+
+/-- `abcd` on the first line of a 2×4 buffer. -/
+def wideRB : RB := textAt (RB.new 2 4 0 0) 0 0 [0x61, 0x62, 0x63, 0x64]
+
+/-- Counterexample (width): on a screen of 3 columns the `d` wraps to column 0 of the second line, a cell the buffer
+    skips.  `tickit_renderbuffer_flush_to_term` does not clip to the terminal's size: the hypothesis of
+    `FlushSpecScreen` (equivalently `rb.cols ≤ t.cols` in `FlushSpec`) cannot be dropped. -/
+theorem C04_anysize_counterexample_width : ¬ C04_anysize := by
+  intro h
+  have := h wideRB (flushWF_of_flushWFb (by decide +kernel))
+    { cells := fun _ _ => {}, line := 0, col := 0, cols := 3 } 2 1 0 (by omega) (by omega) (by omega) (by decide)
+  revert this
+  decide +kernel
+
+/-- `a` at (0,0) and `b` at (1,0) of a 2×2 buffer. -/
+def tallRB : RB := textAt (textAt (RB.new 2 2 0 0) 0 0 [0x61]) 1 0 [0x62]
+
+/-- Counterexample (height): on a screen of one line the cursor movement to the second line is clamped and `b`
+    overwrites `a`. -/
+theorem C04_anysize_counterexample_height : ¬ C04_anysize := by
+  intro h
+  have := h tallRB (flushWF_of_flushWFb (by decide +kernel))
+    { cells := fun _ _ => {}, line := 0, col := 0, cols := 80 } 1 0 0 (by omega) (by omega) (by omega) (by decide)
+  revert this
+  decide +kernel
+
+/-! ## Line styles outside `TickitLineStyle`
+
+  `flush_spec_program` asks of `hline_at`/`vline_at` a style among `TICKIT_LINE_SINGLE/DOUBLE/THICK` (1 … 3), the values
+  of the enumeration the parameter is declared with.  The condition is sharp at both ends: style 0 makes LINE cells with
+  mask 0, for which the glyph table holds U+0000, and style 4 shifted to the west arm leaves the 256-entry table. -/
+
+/-- Style 0: `hline_at(0, 0, 1, 0, CAP_BOTH)` on a 1×2 buffer makes LINE cells with mask 0; the flush prints the table's
+    entry 0, the NUL character, which is no picture of a line segment. -/
+theorem line_style_zero_counterexample :
+    ((RB.run (RB.new 1 2 0 0) [.hlineAt 0 0 1 0 3]).cell 0 0).lmask = 0 ∧
+    ¬ FlushSpec (RB.run (RB.new 1 2 0 0) [.hlineAt 0 0 1 0 3]) := by
+  refine ⟨by decide +kernel, ?_⟩
+  intro h
+  have := (h blankTerm (by decide +kernel)).2 0 0
+  revert this
+  decide +kernel
+
+/-- Style 4: the west arm `4 << WEST_SHIFT` is 256: the mask indexes past the end of `linemask_to_char`. -/
+theorem line_style_four_mask_out_of_table :
+    ((RB.run (RB.new 1 2 0 0) [.hlineAt 0 0 1 4 3]).cell 0 1).lmask = 272 ∧
+    Tickit.Gen.LineChars.linemaskToChar.size = 256 := by
+  decide +kernel
+
 /-- Everything to the right of a text lands in its own column: after the requests of a TEXT run the terminal cursor
     has advanced by exactly the run's columns, whatever part of the text the run shows (when the run ends at the
     terminal's last column the cursor is on that column, pending wrap or not, and the line is finished). -/
@@ -201,7 +327,7 @@ theorem text_run_advances (rb : RB) (line col : Int) (hl : 0 ≤ line ∧ line <
     (hr : RunAt rb line col) (hs : (rb.cell line col).state = .text) (t : GridTerm) (hcw : rb.cols ≤ t.cols)
     (ht : t.line = line ∧ t.col = col) (hroom : col + (rb.cell line col).cols < t.cols) :
     (t.run (textReqs (rb.cell line col))).col = col + (rb.cell line col).cols :=
-  (text_run hl h0 hr hs t hcw ht).2 hroom
+  (text_run hl h0 hr hs t (by have := hr.fits; omega) ht).2 hroom
 
 /-! ### Non-vacuity: a buffer with a text cut inside a double-width character on both sides -/
 
@@ -276,9 +402,6 @@ def C04_full : Prop := ∀ rb : RB, FlushWFP (fun _ => True) rb → FlushSpec rb
 
 /-- `tickit_renderbuffer_char_at(rb, 0, 1, 0xFF21)` on an empty 1×4 buffer. -/
 def charWideRB : RB := charAt (RB.new 1 4 0 0) 0 1 0xff21
-
-/-- A terminal with blank cells, cursor at the origin. -/
-def blankTerm : GridTerm := { cells := fun _ _ => {}, line := 0, col := 0, cols := 80 }
 
 /-- Counterexample (known finding): the double-width U+FF21 in a CHAR cell spills into column 2, a skipped cell. -/
 theorem C04_full_counterexample : ¬ C04_full := by
